@@ -24,7 +24,8 @@ POOL = [Fraction(-1), Fraction(0), Fraction(1), Fraction(2), Fraction(1, 2)]
 def pyval(v, kind):
     f = Fraction(v)
     if kind == 'dec' and f.denominator in (1, 2, 4, 5, 10, 20, 25, 50, 100):
-        return Decimal(f.numerator) / Decimal(f.denominator)
+        # the EXACT decimal (a Decimal division would round to the 28-digit context: 10^30 + 1 must stay 10^30 + 1)
+        return Decimal(f.numerator * (100 // f.denominator)).scaleb(-2) if f.denominator != 1 else Decimal(f.numerator)
     if kind == 'int' and f.denominator == 1:
         return int(f)
     return f if f.denominator != 1 else int(f)
@@ -52,6 +53,11 @@ def enc_sel(res):
 def impl(c):
     import votelib.evaluate.core as core
     votes = {cname(k): pyval(v, c['kind']) for k, v in c['votes']}
+    # asked twice over equal mappings; the first answer is emptied in place before the second question (a caller owns the list
+    # it was given): the answer that counts is the second one
+    first = core.get_n_best(dict(votes), c['n']) if c['via'] == 'core' else core.Plurality().evaluate(dict(votes), c['n'])
+    if isinstance(first, list):
+        first.clear()
     if c['via'] == 'core':
         r = core.get_n_best(votes, c['n'])
     else:
@@ -108,7 +114,7 @@ def gen_random(rng, count):
             if style == 'small':
                 v = Fraction(rng.randint(0, 4))
             elif style == 'big':
-                v = Fraction(10 ** 30 + rng.randint(0, 2))
+                v = Fraction(rng.choice([10 ** 30, 10 ** 30, 3 * 10 ** 40]) + rng.randint(0, 2))
             elif style == 'frac':
                 v = Fraction(rng.randint(0, 6), rng.randint(1, 4))
             elif style == 'dec':
@@ -125,7 +131,8 @@ def gen_random(rng, count):
                 base[rng.randrange(m)] = thr
         ids = list(range(1, m + 1))
         rng.shuffle(ids)
-        kind = 'dec' if style == 'dec' else rng.choice(['frac', 'int'])
+        # big totals also as Decimals: more than 28 significant digits, differing beyond the 28th
+        kind = 'dec' if style == 'dec' or (style == 'big' and rng.random() < 0.5) else rng.choice(['frac', 'int'])
         yield dict(mk(list(zip(ids, base)), n, via=rng.choice(['core', 'plurality']), kind=kind))
 
 
